@@ -44,12 +44,13 @@ def _probes(w, rnd, rep):
     fits = w.ss_fits()
     calls = []
     ids = w.query_attr_ids()
+    boosters = [i for i in items if isinstance(i, Booster)]
     for _ in range(rnd.randint(2, 8)):
         if not items:
             break
-        it = rnd.choice(items)
+        it = rnd.choice(boosters) if boosters and rnd.random() < 0.25 else rnd.choice(items)
         a = rnd.choice(ids) if ids else 1
-        k = rnd.randrange(22)
+        k = rnd.choice([9, 10, 10, 11, 11]) if isinstance(it, Booster) and rnd.random() < 0.7 else rnd.randrange(22)
         f = it._fit
         if k == 0:
             calls.append(('attrs[]', lambda it=it, a=a: it.attrs[a]))
@@ -79,7 +80,7 @@ def _probes(w, rnd, rep):
             calls.append(('side effects', lambda it=it: it.side_effects))
         elif k == 10 and isinstance(it, Booster):
             eids = list(it._type_effects) or [1]
-            calls.append(('set side effect', lambda it=it, e=rnd.choice(eids + [424242]): it.set_side_effect_status(e, rnd.random() < 0.5)))
+            calls.append(('set side effect', lambda it=it, e=rnd.choice(eids + [424242]): it.set_side_effect_status(e, rnd.random() < 0.6)))
         elif k == 11 and isinstance(it, Booster):
             calls.append(('randomize side effects', lambda it=it: it.randomize_side_effects()))
         elif k == 12 and isinstance(it, FighterSquad):
@@ -107,12 +108,16 @@ def _probes(w, rnd, rep):
             calls.append(('stats resists', lambda f=f: (f.stats.resists, f.stats.hp, f.stats.agility_factor if hasattr(f.stats, 'agility_factor') else None)))
         else:
             calls.append(('repr', lambda it=it: repr(it)))
+    # documented exception classes per probe; anything else escaping is an internal failure
+    allowed = {'attrs[]': (KeyError,), 'validate': (ok[5],), 'tanking': (ValueError, TypeError),
+               'dps': (ValueError, TypeError), 'set side effect': (NoSuchSideEffectError,),
+               'set ability': (NoSuchAbilityError,), 'range': (ok[6],), 'stats': ()}
     n = 0
     for what, fn in calls:
         n += 1
         try:
             fn()
-        except ok:
+        except allowed.get(what, ()):
             pass
         except ZeroDivisionError:
             rep.dist['probe_zero_division'] += 1
@@ -120,6 +125,21 @@ def _probes(w, rnd, rep):
             return what, e, n
     rep.dist['probe_calls'] += n
     return None
+
+
+# which documented exception classes make sense for which public call (everything else escaping from it is an
+# internal failure, e.g. a KeyError out of the calculator's bookkeeping while a ship is being assigned)
+ALLOWED = {
+    'add_fit': (), 'remove_fit': ('KeyError',), 'readd_fit': ('ValueError',),
+    'set_single': ('TypeError', 'ValueError'), 'set_single_existing': ('TypeError', 'ValueError'),
+    'add': ('TypeError', 'ValueError'), 'add_existing': ('TypeError', 'ValueError'), 'remove': ('KeyError',),
+    'rack': ('TypeError', 'ValueError', 'SlotTakenError', 'IndexError'),
+    'rack_existing': ('TypeError', 'ValueError', 'SlotTakenError', 'IndexError'),
+    'rack_remove': ('ValueError', 'IndexError'), 'rack_remove_item': ('ValueError',),
+    'state': (), 'mode': (), 'charge': ('TypeError', 'ValueError'), 'target': (), 'level': (), 'source': (),
+    'fleet_join': ('ValueError',), 'fleet_leave': ('KeyError',), 'profile': ('TypeError', 'ValueError'),
+    'read': (), 'read_all': (),
+}
 
 
 def _surface(ctx, rep, pnames, n, label):
@@ -138,9 +158,14 @@ def _surface(ctx, rep, pnames, n, label):
                 for op in gen.next(w):
                     done.append(op)
                     try:
-                        w.apply(op)
+                        out = w.apply(op)
                     except Exception as e:
                         bad = 'op %r raised undocumented %s: %s' % (op[0], type(e).__name__, str(e)[:100])
+                        break
+                    if out == 'ZeroDivisionError':
+                        rep.dist['op_zero_division'] += 1
+                    elif out != 'ok' and out not in ALLOWED.get(op[0], ()):
+                        bad = 'op %r raised %s, which is not a documented outcome of that call' % (op[0], out)
                         break
                     r = _probes(w, prnd, rep)
                     nprobe += 1
